@@ -191,7 +191,7 @@ def leaves(m, pre=''):
     return [(m, pre + m['prefix'])]
 
 
-def gen_params(rng, m, ux, uy, center, width):
+def gen_params(rng, m, ux, uy, center, width, fraction=None):
     """numeric parameter values (floats, in units ux / uy) for every leaf; returns {name: var}, info"""
     params, info = {}, []
     for leaf, pre in leaves(m):
@@ -211,6 +211,8 @@ def gen_params(rng, m, ux, uy, center, width):
         f = None
         if k == 'pvoigt':
             f = rng.choice([0.0, 1.0, 0.5, rng.random(), rng.random()])
+            if fraction is not None:
+                f = fraction
             params[pre + 'fraction'] = var([f], [])
         info.append((k, A, mu, s, f))
     return params, info
@@ -252,8 +254,11 @@ def gen_groups(rng, n):
     battery2 = [(k, w) for k in ('gauss', 'lorentz', 'pvoigt', 'poly', 'comp') for w in ('names', 'bounds', 'guess', 'call', 'fwhm')]
     # ... and every kind of model on every layout of an x array that reaches from the peak into both far tails
     battery3 = [(k, lay) for k in ('gauss', 'lorentz', 'pvoigt', 'poly', 'comp') for lay in WIDE_LAYOUTS + ['0d']]
+    # ... and the pseudo-Voigt at both ends of the fraction range (pure Gaussian / pure Lorentzian)
+    battery4 = [(w, fr) for w in ('fwhm', 'call') for fr in (0.0, 1.0)]
     nb12 = len(battery) + len(battery2)
-    for gi in range(n + nb12 + len(battery3)):
+    nb123 = nb12 + len(battery3)
+    for gi in range(n + nb123 + len(battery4)):
         r = rng.random()
         forced = battery[gi] if gi < len(battery) else None
         forced2 = battery2[gi - len(battery)] if len(battery) <= gi < nb12 else None
@@ -262,8 +267,11 @@ def gen_groups(rng, n):
             r = 0.9
         if forced2:
             r = 0.5
+        forced4 = battery4[gi - nb123] if nb123 <= gi < nb123 + len(battery4) else None
         if forced3:
             r = 0.6 if forced3[0] != 'comp' else 0.2
+        if forced4:
+            r = 0.6
         ux, uy = rng.choice(XUNITS), rng.choice(YUNITS)
         xdt = rng.choice(['float64', 'float64', 'float64', 'float32', 'int64'])
         # integer x: widths >= 10 so that rounding x to integers keeps |x - loc| / scale moderate (the exact
@@ -299,6 +307,8 @@ def gen_groups(rng, n):
             m = gen_leaf(rng, forced3[0]) if forced3[0] != 'comp' else \
                 gen_comp(rng, gen_leaf(rng, rng.choice(['poly', 'lorentz']), 'b_'),
                          gen_leaf(rng, rng.choice(['gauss', 'pvoigt']), 'p_'))
+        if forced4:
+            what, m = forced4[0], gen_leaf(rng, 'pvoigt')
         if mutate == 'overlap':
             p = rng.choice(PREFIXES)
             k = rng.choice(['gauss', 'lorentz', 'pvoigt'])
@@ -320,7 +330,7 @@ def gen_groups(rng, n):
             groups.append({'id': gi, 'what': what, 'model': m, 'params': {}, 'x': var(xs, [[ux, 1]], 'float64', 'x'),
                            'y': var(ys, [[uy, 1]], 'float64', 'x'), 'info': [], 'mutate': None})
             continue
-        params, info = gen_params(rng, m, ux, uy, center, width)
+        params, info = gen_params(rng, m, ux, uy, center, width, fraction=forced4[1] if forced4 else None)
         # layout of x: a short unordered 1-d sample within 30 widths (most groups), or an array in one of the
         # WIDE_LAYOUTS / a 0-d x reaching into the far tails
         xl = 'sample'
@@ -749,6 +759,7 @@ def search(ctx, broken):
                       'grid': 'x = loc + scale*tan(theta), theta = 48-point Gauss-Legendre nodes in 32 panels of (-pi/2+1e-3, pi/2-1e-3)'})
     # polynomial, composite (polynomial + peak), prefix, bad params; x: a few points near 0 and far-tail points
     # of the peak, in a layout that changes from trial to trial
+    poly_trials = []
     for trial in range(12):
         deg = 1 + trial % 6
         lay = (SEARCH_LAYOUTS + ['0d'])[(trial * 5 + 2) % 7] if trial < 7 else rng.choice(SEARCH_LAYOUTS)
@@ -784,7 +795,13 @@ def search(ctx, broken):
             x0 = var([xv], [[ux, 1]], 'float64', None)
             batch.append({'id': len(batch), 'what': 'call', 'model': pg, 'params': gp, 'x': x0})
             batch.append({'id': len(batch), 'what': 'call', 'model': comp, 'params': cparams, 'x': x0})
-        rr = ctx.run_impl('c16_impl.py', {'groups': batch})['groups']
+        poly_trials.append((deg, lay, cs, xs_l, p, q, m, g, pk, miss, extra, batch))
+    allg = [dict(b, id=i) for i, b in enumerate(x for t in poly_trials for x in t[-1])]
+    allr = ctx.run_impl('c16_impl.py', {'groups': allg})['groups'] if allg else []
+    off = 0
+    for deg, lay, cs, xs_l, p, q, m, g, pk, miss, extra, batch in poly_trials:
+        rr = allr[off:off + len(batch)]
+        off += len(batch)
         ltxt = LAYOUT_TEXT[lay]
         if any('result' not in rr[i] for i in (0, 1, 2, 3)):
             errs = [x.get('error') for x in rr[:4]]
@@ -831,6 +848,83 @@ def search(ctx, broken):
             if rr[i].get('error') != 'ValueError':
                 viol(f'bad-params:{what}', f'a call with a {what} parameter is not refused with ValueError (got {rr[i].get("error") or "a value"})',
                      {'group': {'model': m, 'params': list((miss if i == 4 else extra))}})
+    # prefix independence of everything else the models hand out: param_names, guess(data), param_bounds, fwhm —
+    # the same model under a constructor prefix and under a prefix reached by a chain of re-prefixings that
+    # starts from a prefix occurring inside a bare parameter name
+    pref_trials = []
+    for trial in range(10):
+        kind = ['gauss', 'lorentz', 'pvoigt', 'poly', 'comp'][trial % 5]
+        ux, uy = rng.choice(XUNITS), rng.choice(YUNITS)
+        p, q = rng.sample([x for x in PREFIXES + NASTY if x], 2)
+
+        def mk(pre, chain):
+            if kind == 'comp':
+                left = {'kind': 'poly', 'degree': 2, 'prefix': 'b_', 'ctor': 'b_', 'chain': []}
+                right = {'kind': rng.choice(['gauss', 'lorentz', 'pvoigt']), 'prefix': 'k', 'ctor': 'k', 'chain': []}
+                base = {'kind': 'comp', 'via': 'ctor', 'left': left, 'right': right}
+            else:
+                base = {'kind': kind}
+                if kind == 'poly':
+                    base['degree'] = 1 + trial % 6
+            if chain:
+                return dict(base, prefix=pre, ctor=rng.choice(NASTY), chain=[rng.choice(NASTY), pre])
+            return dict(base, prefix=pre, ctor=pre, chain=[])
+        st = rng.getstate()
+        mp = mk(p, False)
+        rng.setstate(st)              # the same random sub-model for both prefixes
+        mq = mk(q, True)
+        width = kcorr.loguniform(rng, 1e-3, 1e3)
+        center = rng.uniform(-5, 5) * width
+        pk = rng.uniform(-3, 3)
+        xs = [center + (j - 8) * 0.6 * width for j in range(17)]
+        ys = [0.5 + 4.0 * math.exp(-((j - 8) * 0.6 - pk) ** 2 / 2) + 0.02 * j for j in range(17)]
+        X, Y = var(xs, [[ux, 1]], 'float64', 'x'), var(ys, [[uy, 1]], 'float64', 'x')
+        batch = []
+        for mm in (mp, mq):
+            for what in ('guess', 'bounds'):
+                batch.append({'id': len(batch), 'what': what, 'model': mm, 'params': {}, 'x': X, 'y': Y})
+        pref_trials.append((kind, p, q, mp, mq, batch))
+    allg = [dict(b, id=i) for i, b in enumerate(x for t in pref_trials for x in t[-1])]
+    allr = ctx.run_impl('c16_impl.py', {'groups': allg})['groups'] if allg else []
+    off = 0
+    for kind, p, q, mp, mq, batch in pref_trials:
+        rr = allr[off:off + len(batch)]
+        off += len(batch)
+        want_names = sorted(own_names(mp))
+        for (ip, iq, what) in ((0, 2, 'guess'), (1, 3, 'bounds')):
+            rp_, rq_ = rr[ip], rr[iq]
+            if 'keys' not in rp_ or 'keys' not in rq_:
+                err = rp_.get('error') or rp_.get('construct_error') or rq_.get('error') or rq_.get('construct_error')
+                if what == 'guess' and kind == 'poly' and rp_.get('error') == rq_.get('error') == 'NotImplementedError':
+                    continue
+                viol(f'prefix:{what}-raises', f'model.{what} raises {err} for a {kind} model with prefix {p!r} or {q!r} (re-prefixed)',
+                     {'group': strip(batch[iq if 'keys' in rp_ else ip]), 'error': err})
+                continue
+            for pre, r_, mm, ib in ((p, rp_, mp, ip), (q, rq_, mq, iq)):
+                names_ = sorted(r_['param_names'])
+                if names_ != sorted(pre + nm for nm in want_names):
+                    viol('prefix:param_names', f'param_names of a {kind} model with prefix {pre!r} are {names_}, not prefix + {want_names}',
+                         {'group': strip(batch[ib]), 'param_names': names_})
+                if any(not k.startswith(pre) or k[len(pre):] not in want_names for k in r_['keys']):
+                    viol(f'prefix:{what}-keys', f'keys of model.{what} of a {kind} model with prefix {pre!r} are {r_["keys"]}: not prefix + parameter name',
+                         {'group': strip(batch[ib]), 'keys': r_['keys']})
+            bare_p = sorted(k[len(p):] for k in rp_['keys'])
+            bare_q = sorted(k[len(q):] for k in rq_['keys'])
+            if bare_p != bare_q:
+                viol(f'prefix:{what}-keys', f'model.{what} depends on the prefix: {p!r} -> {rp_["keys"]}, {q!r} (re-prefixed) -> {rq_["keys"]}',
+                     {'group': strip(batch[iq]), 'other_prefix': p})
+                continue
+            field = 'guess' if what == 'guess' else 'bounds'
+            vp = {k[len(p):]: v for k, v in (rp_.get(field) or {}).items()}
+            vq = {k[len(q):]: v for k, v in (rq_.get(field) or {}).items()}
+            for k in vp:
+                a_, b_ = vp[k], vq.get(k)
+                if what == 'guess' and isinstance(a_, dict) and isinstance(b_, dict):
+                    a_, b_ = (a_.get('values'), a_.get('unit')), (b_.get('values'), b_.get('unit'))
+                if a_ != b_:
+                    viol(f'prefix:{what}-values', f'model.{what}()[prefix + {k!r}] depends on the prefix: {p!r} -> {a_}, {q!r} (re-prefixed) -> {b_}',
+                         {'group': strip(batch[iq]), 'other_prefix': p, 'parameter': k})
+                    break
     return found
 
 
